@@ -524,7 +524,7 @@ fn cmd_run(args: &Args) -> i32 {
     let verif = env_path("VERIF_DIR", "/verif");
     let thorough = args.tier == "thorough";
     let runs = args.runs.unwrap_or(if thorough { 5_000_000 } else { 40_000 });
-    let n_rendered = args.pool.unwrap_or(if thorough { 384 } else { 64 });
+    let n_rendered = args.pool.unwrap_or(if thorough { 384 } else { 96 });
     let workers = args.workers.max(1);
     println!(
         "sim: property={PROPERTY} tier={} seed={} runs={} workers={} pool=1+{}",
